@@ -138,7 +138,7 @@ def check_filter_loop(ctx, out, fp, rule):
     pl = util.op_place(arg)
     for fld, rx in (("is_content_modified", r"content_intersects_with_any$"), ("_is_start_tag_modified", r"start_tag_intersects_with_any$")):
         labs = ctx.prov.read_place(fpv, {"l": pl["l"], "p": pl["p"] + [{"f": fld}]}) if pl else set()
-        if not P.has_call(labs, rx) or any(l[0] == "call" and re.search(r"intersects_with_any$", l[1]) and not re.search(rx, l[1]) for l in labs):
+        if not P.has_call(labs, rx) or any(l[0] == "call" and re.search(r"(content|start_tag)_intersects_with_any$", l[1]) and not re.search(rx, l[1]) for l in labs):
             out.viol(rule, rule + "|flags|%s" % fld, ctx.where(fp, pt["span"]), "the stored flag `%s` does not derive from its own intersection test (origins: %s)" % (fld, util.origins_text(labs, 4)))
     for bi, t2 in fpv.calls():
         if callee_matches(t2, r"(content|start_tag)_intersects_with_any$") and bi in region:
